@@ -206,13 +206,19 @@ def extract_module(name: str, tree: ast.Module, src: str) -> Module:
                         except (ValueError, SyntaxError):
                             ci.enum_members.append((st.targets[0].id, ast.unparse(st.value)))
             else:
+                # Python evaluates a class body top-down: once a field `str: Optional[str] = None` has been assigned, the NAME str
+                # means None for every later annotation in this class body
+                rebound: Dict[str, ast.expr] = {}
                 for st in node.body:
                     if isinstance(st, ast.AnnAssign) and isinstance(st.target, ast.Name):
                         n = st.target.id
                         if n.startswith("_"):
                             continue  # pydantic: an annotated name with a leading underscore is a private attribute, not a field
-                        fi = ci.fields.get(n) or FieldInfo(n, st.annotation)
-                        fi.ann = st.annotation
+                        ann_ast = _subst_rebound(st.annotation, rebound) if rebound else st.annotation
+                        if st.value is not None:
+                            rebound[n] = st.value
+                        fi = ci.fields.get(n) or FieldInfo(n, ann_ast)
+                        fi.ann = ann_ast
                         fi.module = name
                         if st.value is not None:
                             fi.raw_value = ast.unparse(st.value)
@@ -229,6 +235,28 @@ def extract_module(name: str, tree: ast.Module, src: str) -> Module:
             classes[node.name] = ci
             order.append(node.name)
     return Module(name, tree, classes, imports, constants, rebuilds, order)
+
+
+class _Rebind(ast.NodeTransformer):
+    def __init__(self, rebound):
+        self.rebound = rebound
+
+    def visit_Name(self, n):  # noqa: N802
+        v = self.rebound.get(n.id)
+        if v is not None and isinstance(v, ast.Constant) and v.value is None:
+            return ast.copy_location(ast.Constant(value=None), n)
+        if v is not None:
+            return ast.copy_location(ast.Name(id="__rebound_" + n.id, ctx=ast.Load()), n)  # unknown to the acceptance model: reported
+        return n
+
+    def visit_Constant(self, n):  # noqa: N802
+        return n  # forward references (strings) are resolved by pydantic in the module namespace, not the class body
+
+
+def _subst_rebound(ann: ast.expr, rebound) -> ast.expr:
+    import copy
+
+    return _Rebind(rebound).visit(copy.deepcopy(ann))
 
 
 def extract_method(fn, m: Module, pkg: Package) -> Optional[MethodInfo]:
